@@ -17,12 +17,12 @@ CHECKS = {
             "DESIGN.md section 4 C01"),
     "C03": ("exploration", SAN + "binary128 exact interpolant with a-priori forward error bound",
             "Executions of linear<..>::at for N 1..5 x M 1..4 (N != M), float/double coordinates and storage, three layers beneath, on non-affine and one-hot "
-            "data at adversarial coordinates, each compared with the exact N-linear sum in binary128 under an operation-count error bound; lattice points bit-exact.",
+            "data at adversarial coordinates, each compared with the exact N-linear sum in binary128 under an operation-count error bound; lattice points bit-exact; every fourth field interpolated after dump/reload.",
             "Trusts libquadmath and the error analysis (slack factor 2, underflow term); corner values are read through the layer beneath, which C01/C14 check separately.",
             "DESIGN.md section 4 C03"),
     "C04": ("exploration", SAN + "exact distance oracle in binary128 on boundary-value workloads",
             "Half-integers and their neighbouring representable values up to the mantissa width, values a float cannot hold, random coordinates; the chosen "
-            "lattice point is observed through nearest_neighbour<identity> and through id-carrying array fields.",
+            "lattice point is observed through nearest_neighbour<identity> and through id-carrying array fields; every lookup repeated through the variadic at(c0, c1, ...) with arguments of mixed exact types.",
             "Default rounding mode only; ties may go either way.", "DESIGN.md section 4 C04"),
     "C02": ("exploration", SAN + "reference interpreter (binary128) over grammar-generated stacks",
             "Stacks are generated from the layer grammar (pairwise adjacency cover in the quick tier, all kind sequences to depth 4 plus sampled depth 5 in the "
@@ -30,16 +30,16 @@ CHECKS = {
             "hundreds of proposed coordinates; a layer-by-layer interpreter of the same description decides in-domain and the expected value; equality.",
             "Trusted base: harness/model.hpp and gen/zoo.py (the same configuration values go into the C++ parameter pack and into the model).", "DESIGN.md section 4 C02"),
     "C05": ("exploration", SAN + "ND-array model over exhaustive extent boxes; CUDA host shim",
-            "All ordered pairs of storage orders (Morton BMI2 and portable distinct) for N 1..4, every extent vector up to the bound: configuration, every lattice "
+            "All ordered pairs of storage orders (Morton BMI2 and portable distinct) for N 1..4, every extent vector up to the bound plus listed large extents (padded side 1024..4096) for N 1, 2: configuration, every lattice "
             "value, source unchanged and unshared, round trip, move-conversion; whole affine<interp<order<array>>> stacks; host->cuda_device_array under a malloc/memcpy shim.",
             "CUDA path is host-shim only (reduced assurance, as the property states); array length across different orders is deliberately not compared.", "DESIGN.md section 4 C05"),
     "C06": ("exploration", SAN + "bitwise dump/load/dump monitor + independent Python format reader",
             "Every generated serialisable stack with special bit patterns (signed zeros, subnormals, infinities, NaN payloads) in storage: configuration per layer, "
-            "stored bits via memcmp, second dump byte-identical, stream consumed exactly; each dump parsed by an independent grammar reader.",
+            "stored bits via memcmp, second dump byte-identical, stream consumed exactly; each dump parsed by an independent grammar reader; fields without cells (zero extents, default-constructed) included.",
             "x86-64 SSE scalar moves preserve NaN payloads; patterns compared with memcmp only.", "DESIGN.md section 4 C06"),
     "C07": ("exploration", SAN + "round-to-nearest definition oracle; golden files of the pinned revision; independent format reader",
             "Writer/reader pairs differing in interpolation method and/or storage precision with tie and near-tie values; 28 committed golden files written by the "
-            "pinned revision must load, match recorded configuration/values and re-dump byte-identically; hashes and grammar also checked without covfie code.",
+            "pinned revision must load, match recorded configuration/values and re-dump byte-identically; hashes and grammar also checked without covfie code; dumps of fields without cells parsed by the grammar reader.",
             "Goldens come from one revision (9bc2998); pairs whose configuration payload is typed by the stored scalar are format-incompatible and excluded.", "DESIGN.md section 4 C07"),
     "C08": ("fault_enumeration", "fault-injecting stream buffer + outcome classification under ASan+UBSan (assertions on/off) + valgrind memcheck error deltas",
             "Complete enumeration of truncation points of representative dumps, every magic/tag/width word with sampled replacements, a stream failing at the "
@@ -47,14 +47,14 @@ CHECKS = {
             "The element-count word is not corrupted (the property does not promise it); memcheck sees uninitialised, not stale, data.", "DESIGN.md section 4 C08"),
     "C17": ("exploration", SAN + "configuration read-back monitor over generated stacks + coinciding-type towers for the positional helper",
             "Per layer, the reported configuration equals the one passed in (directly and via make_parameter_pack_for); a field rebuilt from reported configurations "
-            "and storage agrees with the interpreter; helper exercised at depths 2..10 with adjacent layers of identical configuration type.",
+            "and storage agrees with the interpreter; the same after copy assignment over a larger field and after grow-then-shrink; helper exercised at depths 2..10 with adjacent layers of identical configuration type.",
             "Equality is member-wise on exactly representable values.", "DESIGN.md section 4 C17"),
     "C09": ("exploration", SAN + "binary128 reference with running error bound",
             "Random chains of 1..4 affine transforms in N 1..4, float/double, exact (small integers: equality) and rounded (error bound) tiers, both association orders, "
             "factories and the affine layer over identity through both lookup forms.",
             "Trusts the binary128 reference and the gamma bound with slack 4.", "DESIGN.md section 4 C09"),
     "C10": ("exploration", SAN + "extremes-catalogue workload, reference clamp, probe storage",
-            "Type extremes, infinities, subnormals and values adjacent to every bound crossed over the axes for six coordinate types; clamp over array and probe "
+            "Type extremes, infinities, subnormals and values adjacent to every bound crossed over the axes for six coordinate types spelled with the library aliases; clamp over array and probe "
             "storage (fields up to 2^40 cells) and above both interpolators, under ASan with assertions on.",
             "NaN excluded as the property states; clamp below an interpolator is exercised in C03.", "DESIGN.md section 4 C10"),
     "C11": ("exploration", SAN + "query-counting probe backend",
@@ -82,7 +82,7 @@ CHECKS = {
             "Happens-before analysis of the executions performed, not schedule enumeration; OpenMP/CUDA runtimes out of reach.", "DESIGN.md section 4 C16"),
     "C14": ("exploration", SAN + "independent curve references (128-bit row-major, per-bit interleave, inverse Hilbert walk)",
             "Exhaustive over small bit-widths / extent boxes / Hilbert squares up to k, boundary bit patterns and random beyond; BMI2 (pdep) and portable paths "
-            "compared with each other and with the reference in +bmi2 and plain builds; positions observed through the layers over identity<size1>.",
+            "compared with each other and with the reference in +bmi2 and plain builds; positions observed through the layers over identity<size1>, for row-major also on the field reloaded from its own dump.",
             "Trusts harness/refs.hpp; coordinates above 2^floor(64/N) are out of the stated domain.", "DESIGN.md section 4 C14"),
     "C18": ("exploration", SAN + "exhaustive differential oracle",
             "Exhaustive at 8 and 16 bits (and all 2^31 32-bit inputs in the thorough tier), boundary+random at 32/64 bits, "
@@ -90,7 +90,7 @@ CHECKS = {
             "Trusts the reference arithmetic in harness/refs.hpp (unsigned __int128); 64-bit inputs are sampled, not enumerated.",
             "DESIGN.md section 4 C18"),
     "C19": ("exploration", SAN + "callback trace recorder with set oracle",
-            "Every extent vector with entries 0..B for 1..5 dimensions and five tuple types, plus random larger boxes; the recorded tuple multiset is compared with the box.",
+            "Every extent vector with entries 0..B for 1..5 dimensions and five tuple types, plus random larger boxes and boxes too large to finish; the recorded tuple multiset is compared with the box; the callback is handed over in eight forms (closures owning state, std::function, functors).",
             "Order of visits is not asserted (the property states none).", "DESIGN.md section 4 C19"),
     "C20": ("exploration", "generated tables of the metaprogram's outputs checked at run time against std::sort / std::is_permutation",
             "All sequences up to length 4 (6 thorough) over 5 symbols for sorting and all pairs up to length 3 (4) over 4 symbols for the predicate, plus random long "
